@@ -7,7 +7,7 @@ Extraction Language OCaml.
 Separate Extraction
   BinInt.Z.add BinInt.Z.mul BinInt.Z.opp BinInt.Z.div_eucl BinInt.Z.compare BinInt.Z.of_nat BinInt.Z.to_nat
   BinNat.N.add BinNat.N.mul BinNat.N.div_eucl BinInt.Z.of_N BinInt.Z.to_N
-  Balance.run Balance.run_obs
+  Balance.run Balance.run_obs Balance.run_cfg
   Balance.rr_machine Balance.rnd_machine Balance.la_machine Balance.wrr_machine
   Balance.ng_machine Balance.wrand_machine Balance.wla_machine
   Balance.rr_init Balance.wrr_new Balance.ng_new Balance.wla_new Balance.mk_weighted
